@@ -35,7 +35,18 @@ def _close(a, b, tol=5e-7):
     return abs(a - b) <= tol + 4 * np.spacing(abs(a))
 
 
-def _cmp_geom(obj_atoms, obj_coords, back, fails, kind, where):
+FMTS = [None, None, "12.6f", "14.8f", "18.12f", "20.10e", "10.3f", ".4f", "16.9e"]
+
+
+def _fmt_tol(fmt):
+    """written precision of a format: (absolute, relative) half-unit of the last written digit"""
+    if fmt is None:
+        return 5e-7, 0.0
+    d = int(fmt.split(".")[1][:-1])
+    return (0.5 * 10.0 ** -d * 1.0000001, 0.0) if fmt.endswith("f") else (0.0, 0.5 * 10.0 ** -d * 1.0000001)
+
+
+def _cmp_geom(obj_atoms, obj_coords, back, fails, kind, where, tol=(5e-7, 0.0)):
     if back.n_atoms != len(obj_atoms):
         fails.append(Fail(f"{kind}:atom-count-differs", f"{where}: {len(obj_atoms)} -> {back.n_atoms}"))
         return
@@ -49,7 +60,7 @@ def _cmp_geom(obj_atoms, obj_coords, back, fails, kind, where):
         fails.append(Fail(f"{kind}:coords-shape-differs", f"{where}: {co.shape} -> {cb.shape}"))
         return
     for x, y in zip(co.ravel(), cb.ravel()):
-        if not _close(float(x), float(y)):
+        if not _close(float(x), float(y), tol[0] + tol[1] * (abs(float(x)) if math.isfinite(float(x)) else 0.0)):
             fails.append(Fail(f"{kind}:coordinate-differs", f"{where}: {x!r} -> {y!r}"))
             return
 
@@ -90,7 +101,14 @@ def check_rt(recipe) -> list[Fail]:
                 obj = cls(atoms, name=r["name"], coords=np.array(r["coords"], dtype=float).reshape((len(atoms), 3)))
             else:
                 obj = chem.build_molecule(r, cls)
-            text = obj.dumps_xyz()
+            fmt = FMTS[recipe.get("fmt", 0)]
+            if fmt is None:
+                text = obj.dumps_xyz()
+            else:
+                # the public fmt option: what is written (to that many digits) is what must come back
+                buf = io.StringIO()
+                obj.dump_xyz(buf, fmt=fmt)
+                text = buf.getvalue()
             if entry == "loads":
                 back = cls.loads_xyz(text)
             elif entry == "load_stream":
@@ -104,9 +122,9 @@ def check_rt(recipe) -> list[Fail]:
                 raise HarnessError("bad entry")
             if type(back) is not cls:
                 fails.append(Fail("geom:wrong-class-returned", f"{cls.__name__} -> {type(back).__name__}"))
-            _cmp_geom(obj.atoms, obj.coords, back, fails, "geom", entry)
+            _cmp_geom(obj.atoms, obj.coords, back, fails, "geom" if fmt is None else "geom:fmt", entry + (f" fmt={fmt}" if fmt else ""), _fmt_tol(fmt))
             # second cycle: text fixed point (what was written is what the file says)
-            if not fails and obj.n_atoms and back.dumps_xyz().splitlines()[2:] != text.splitlines()[2:]:
+            if not fails and fmt is None and obj.n_atoms and back.dumps_xyz().splitlines()[2:] != text.splitlines()[2:]:
                 fails.append(Fail("geom:second-write-differs", ""))
     except HarnessError:
         raise
@@ -183,7 +201,7 @@ def strat_multi(tier):
 def classify_rt(recipe):
     r = recipe["mol"]
     cs = r["coords"] if recipe["kind"] != "ConformerEnsemble" else [c for f in r["confs"] for c in f]
-    labels = ["kind=" + recipe["kind"], "entry=" + recipe["entry"]]
+    labels = ["kind=" + recipe["kind"], "entry=" + recipe["entry"], "fmt=" + str(FMTS[recipe.get("fmt", 0)])]
     if len(r["atoms"]) == 0:
         labels.append("zero_atoms")
     if any(a["atype"] == 100 for a in r["atoms"]):
@@ -214,7 +232,7 @@ def strat_rt(tier):
     molr = chem.molecule_recipe(max_atoms=30 if big else 12, max_bonds=6, attribs=False, mol2_safe=True).map(_xyzify)
     ensr = chem.ensemble_recipe(max_atoms=8, max_bonds=4, max_conf=5, attribs=False, mol2_safe=True).filter(lambda r: len(r["confs"]) >= 1).map(_xyzify)
     return st.one_of(
-        st.fixed_dictionaries({"kind": st.sampled_from(["CartesianGeometry", "Structure", "Molecule"]), "mol": molr, "entry": st.sampled_from(["loads", "loads", "load_stream", "loads_all"])}),
+        st.fixed_dictionaries({"kind": st.sampled_from(["CartesianGeometry", "Structure", "Molecule"]), "mol": molr, "entry": st.sampled_from(["loads", "loads", "load_stream", "loads_all"]), "fmt": st.integers(0, len(FMTS) - 1)}),
         st.fixed_dictionaries({"kind": st.just("ConformerEnsemble"), "mol": ensr, "entry": st.sampled_from(["ens", "ens", "all_mol", "all_geom", "all_stream"])}),
     )
 
